@@ -219,6 +219,19 @@ class Lab:
         self.pristine = {}
         self.real_gen_vector = VectorAndNumbers.__dict__["gen_vector"]
 
+    def discard(self, problem):
+        """a private Problem is finished: remove its working directory now (artap names it by the microsecond part of
+        the creation time only, so two long-lived Problems can share one and the atexit hook of the second would fail)"""
+        import atexit
+        try:
+            atexit.unregister(problem.cleanup)
+            problem.cleanup()
+        except Exception:
+            pass
+        for k in [k for k, v in self.cache.items() if v[0] is problem]:
+            del self.cache[k]
+        self.pristine.pop(id(problem), None)
+
     def problem_for(self, dim, crit, pstyle, private=False):
         key = (dim, tuple(crit), pstyle)
         if private:                     # a Problem of its own (parallel runs: late worker threads must not meet a later session)
@@ -744,7 +757,7 @@ class ParSession(Session):
     (what a thread switch inside the objective does): re-entrancy of Job / Evaluator."""
 
     def __init__(self, lab, cfg, patterns, processes=2, nest=None):
-        super().__init__(lab, dict(cfg, processes=processes, private=True))
+        super().__init__(lab, dict(cfg, processes=processes))      # processes > 1: a Problem of its own
         self.nest = nest if nest is not None else {}      # shared with the caller, who fills it after creating the designs
         self.patterns = patterns           # design id -> list of codes by attempt
         self.dcalls = {}                   # design id -> [(vec, code, exc)]
@@ -980,6 +993,8 @@ def interleaved_case(lab, rng, ctx, out, hist, group, nested=False, faults=True)
         out.append((case, expected, {label: True, "design": d, "outcomes": [c[1] for c in cs],
                                      "vectors": [c[0] for c in cs], "result": str(res), "final": s.snap(s.objs[d])}))
         ctx.count((label, tuple(c[1] for c in cs), str(res), d in inner), nontrivial=nested or len(cs) > 1)
+    if not nested:
+        lab.discard(s.problem)
 
 
 def rand_cfg(rng, **force):
